@@ -103,6 +103,7 @@ def run(tier, out, model_ok, proof):
     cases = [treecorr.single_file_case("d%d" % i, treecorr.render_tokens(d)) for i, d in enumerate(docs)]
     if model_ok:
         g, crashes, m, mism = treecorr.run_tree(cases)
+        treecorr.placed_check(m, cases, out)
     else:
         lines = [json.dumps(c) for c in cases]
         g, crashes = treecorr.run_isolated(os.path.join(BUILD, "harness"), ["tree"], lines)
